@@ -18,10 +18,23 @@ type CaseFL struct {
 	Tail B      `json:"tail"` // bytes after the line (enough for the 14-byte look-ahead)
 	Msg  bool   `json:"msg"`  // go through ParseSIPMsg (+Method()) instead of ParseFLine
 	Cut  int    `json:"cut"`  // > 0: feed the first Cut bytes first, then everything (the decomposition must not depend on it)
+	Cut2 int    `json:"cut2,omitempty"` // > Cut: a second, longer prefix is fed between the first one and everything (three calls)
 	Used B      `json:"used"` // non-empty: the object first parses this other line and is Reset() (ParseFLine entry)
 	// NotReply: the line (a request line by construction whose first token holds a control byte) only has to be
 	// "not a reply": rejected, or decomposed as the request it is
 	NotReply bool `json:"not_reply,omitempty"`
+}
+
+// cuts: the prefixes fed before the whole buffer (none, one or two, increasing, inside the buffer).
+func (c CaseFL) cuts(n int) []int {
+	var ks []int
+	if c.Cut > 0 && c.Cut < n {
+		ks = append(ks, c.Cut)
+		if c.Cut2 > c.Cut && c.Cut2 < n {
+			ks = append(ks, c.Cut2)
+		}
+	}
+	return ks
 }
 
 func (c CaseFL) line() []byte {
@@ -183,11 +196,13 @@ func evalFL(c CaseFL) Result {
 	start := 0
 	if c.Msg {
 		msg.Init(nil, nil, nil)
-		if c.Cut > 0 && c.Cut < len(buf) {
-			if o1, e1 := sipsp.ParseSIPMsg(buf[:c.Cut:c.Cut], 0, &msg, sipsp.SIPMsgSkipBodyF); e1 == sipsp.ErrHdrMoreBytes {
+		for _, k := range c.cuts(len(buf)) {
+			if o1, e1 := sipsp.ParseSIPMsg(buf[:k:k], start, &msg, sipsp.SIPMsgSkipBodyF); e1 == sipsp.ErrHdrMoreBytes {
 				start = o1
 			} else {
 				msg.Init(nil, nil, nil)
+				start = 0
+				break
 			}
 		}
 		o, e = sipsp.ParseSIPMsg(buf, start, &msg, sipsp.SIPMsgSkipBodyF)
@@ -198,11 +213,13 @@ func evalFL(c CaseFL) Result {
 			sipsp.ParseFLine(append(append([]byte{}, c.Used...), "\r\nVia: SIP/2.0/UDP h\r\n\r\n"...), 0, fl)
 			fl.Reset()
 		}
-		if c.Cut > 0 && c.Cut < len(buf) {
-			if o1, e1 := sipsp.ParseFLine(buf[:c.Cut:c.Cut], 0, fl); e1 == sipsp.ErrHdrMoreBytes {
+		for _, k := range c.cuts(len(buf)) {
+			if o1, e1 := sipsp.ParseFLine(buf[:k:k], start, fl); e1 == sipsp.ErrHdrMoreBytes {
 				start = o1
 			} else {
 				fl.Reset()
+				start = 0
+				break
 			}
 		}
 		o, e = sipsp.ParseFLine(buf, start, fl)
@@ -339,6 +356,17 @@ func genCaseFL(t *rapid.T) CaseFL {
 	c := CaseFL{FL: genFLine(t), Tail: flTail(t), Msg: rapid.Bool().Draw(t, "viamsg")}
 	if rapid.IntRange(0, 2).Draw(t, "chunked") == 0 {
 		c.Cut = rapid.IntRange(1, 40).Draw(t, "cut")
+		// three calls: a second prefix, often ending just before / on / after the end of the line
+		switch ln := len(c.line()); rapid.IntRange(0, 5).Draw(t, "cut2kind") {
+		case 0:
+			c.Cut2 = c.Cut + rapid.IntRange(1, 30).Draw(t, "cut2")
+		case 1:
+			c.Cut2 = ln - 1
+		case 2:
+			c.Cut2 = ln
+		case 3:
+			c.Cut2 = ln - 2
+		}
 	}
 	if rapid.IntRange(0, 3).Draw(t, "used") == 0 {
 		c.Used = B(pick(t, "usedline", "SIP/2.0 486 Busy Here", "REGISTER sip:registrar.example SIP/2.0", "sip/2.0 000 ", "X y"))
